@@ -15,7 +15,8 @@ answers        operating system: cpus in {1, 2} (+ 3 thorough) is part of the ca
 Sub-check `run` (one pricing on fresh objects). Lattice: engine in {standard, multilevel fixed-level, multilevel adaptive}
                x process of the standard engine in {chain, levy (direct simulation)} x simulation mode in {fixed dates, jump
                times} x seed in {None, 7, 0} x nb_of_processes in {1, 2, None with cpus 1, None with cpus 2} (+ 3, None with
-               cpus 3 thorough) x paths in {4, 9} (+ 8 thorough); D = 1 quick, 2 thorough (1 with a single worker). Quick keeps
+               cpus 3 thorough) x paths in {4, 9} (+ 8 thorough); D = 1 quick, 2 thorough (1 with a single worker, with seed 0 and
+               with nb_of_processes=None, whose schedules are those of an explicit number of processes). Quick keeps
                seed 0 only with nb_of_processes in {1, None/2 cpus} and 4 paths, 9 paths only for the chain process of the
                standard and fixed-level engines, and explores the default schedule only (D = 0) for seed 0 with a pool and for
                the adaptive engine with nb_of_processes=None (it opens one pool per level and pass).
@@ -141,10 +142,9 @@ def _procs_alphabet(thorough):
 
 
 def _step(label, op, restore=None):
-    st = dict(STEPS[label], op=op, label=label)
-    if restore is not None:
-        st = {"set": dict(restore), "op": op, "label": "restore"}
-    return st
+    if restore is not None:  # plain pricing on the current engine after the configuration got its original values back
+        return {"set": dict(restore), "op": op, "label": "restore"}
+    return dict(STEPS[label], op=op, label=label)
 
 
 def _history_cases(tier):
@@ -215,6 +215,8 @@ def cases(tier):
                         b = min(bound, 1) if single else bound
                         if not thorough and not single and (seed == 0 or (procs is None and engine == "mlmc-adaptive")):
                             b = 0  # quick: default schedule only (the adaptive engine opens a pool per level and pass)
+                        if thorough and not single and (seed == 0 or procs is None):
+                            b = 1  # the schedules of None / k cpus are those of k processes, explored with D = 2
                         out.append({"sub": "run", "engine": engine, "process": process, "mode": mode, "seed": seed, "procs": procs,
                                     "cpus": cpus, "paths": paths, "bound": b})
     for engine, process in (("standard", "chain"), ("standard", "levy"), ("mlmc-fixed", "chain"), ("mlmc-adaptive", "chain")):
@@ -632,6 +634,13 @@ def _history(sh, case):
                                  f"seed={e['seed']}, one process, {e['paths']} paths, {s['mode']} product: step {k} ({s['op']}) of the "
                                  f"history [{label}] on re-used objects does not store what the same pricing stores on freshly "
                                  f"built objects: {first_difference(s['rows'], ref)}", {"steps": case["steps"]})
+        if label in ("constant>constant", "price>other-product.price>restore.price") and case["seed"] == SEED and case["procs"] == 1 \
+                and case["mode"] == "fixed" and case.get("method", "INVERSION") == "INVERSION" and case.get("process") == "chain":
+            sh.sample({"sub": "history", "history": label, "engine": _engine_tag(case),
+                       "steps": [{"op": s["op"], "product": s["mode"], "effective": s["eff"], "samples": s["hi"] - s["lo"],
+                                  "stored_rows_digest": core.digest([r.tolist() for r in s["rows"]]),
+                                  "fresh_run_digest": core.digest([r.tolist() for r in _reference(case, s["mode"], s["eff"]["paths"], s["eff"]["seed"], s["op"])])}
+                                 for s in steps]})
         o = (tuple((s["ctx"], s["level"]) for _, s in sorted(h.samples.items())),
              tuple((e[0], e[1], e[2]) for e in h.events if e[0].endswith("seed")),
              tuple(core.digest([r.tolist() for r in s["rows"]]) for s in steps) if case["seed"] is not None and case["procs"] == 1 else ())
@@ -791,6 +800,6 @@ def _conformance(sh, case):
                          f"at most {workers} worker pids", None)
         else:
             sh.traces += 1
-        sh.outcome((procs, case.get("cpus"), n, lvl, cs, len(pids)))
+        sh.outcome((procs, case.get("cpus"), n, lvl, cs))  # not the number of distinct pids: that is the OS scheduler's choice
     sh.nontriv()
     sh.sample({"sub": "conformance", "case": case, "chunk_size": cs, "distinct_worker_pids": len(pids), "first_reports": rep[:6]})
